@@ -37,6 +37,8 @@ ASSUMPTIONS = ["configs are built through Config::builder().build (valid: unique
                "schedule coverage inside set_config is deterministic same-thread re-entrancy only: a record logged "
                "from the Drop of a previous-config appender (released by the ArcSwap store, after the swap); no "
                "second thread is raced against set_config (C15)",
+               "the children run under RUST_LOG in {unset, error, warn, off, trace, info,foo=debug, debug} and log's global "
+               "maximum is overwritten (Off / Trace alternating) right before every set_config: neither may matter",
                "log::STATIC_MAX_LEVEL is Trace (no max_level_* feature of `log` enabled in the harness build)",
                "delivery order among the appenders of one record is canonicalised (multiset comparison)",
                "the `log` crate's macros and set_max_level/max_level are exercised, not verified "
@@ -311,7 +313,21 @@ def _one(args):
     return out[0] if out and out[0] else "xabort"
 
 
+RUST_LOG = [None, "error", "warn", "off", "trace", "info,foo=debug", "debug"]
+
+
 def run_impl(ctx, cases_, lines):
+    """one child per history; the children run under different RUST_LOG values (log4rs does not read it: the
+    configuration alone decides) and the harness overwrites log's global maximum with Off / Trace right before
+    every set_config (a foreign write: set_config must install the new configuration's maximum regardless)"""
     vc = ctx["vc"]
+    jobs = []
+    for i, l in enumerate(lines):
+        env = dict(vc.ENV)
+        env.pop("RUST_LOG", None)
+        v = RUST_LOG[i % len(RUST_LOG)]
+        if v is not None:
+            env["RUST_LOG"] = v
+        jobs.append((ctx["vh"], l, env))
     with concurrent.futures.ThreadPoolExecutor(max_workers=12) as ex:
-        return list(ex.map(_one, [(ctx["vh"], l, vc.ENV) for l in lines]))
+        return list(ex.map(_one, jobs))
